@@ -6,6 +6,28 @@ from vf.core import Prop, Result
 from vf.hmodel import HModel, seq_of, key
 
 
+def pre_transform(nl, kind, res):
+    """the netlist the queries run on may itself be the product of another feature"""
+    import spydrnet.uniquify as U
+
+    try:
+        if kind == "clone":
+            nl = nl.clone()
+        elif kind == "uniquify":
+            U.MOD_NAME_UID = 0
+            U.uniquify(nl)
+        elif kind == "clone+uniquify":
+            nl = nl.clone()
+            U.MOD_NAME_UID = 0
+            U.uniquify(nl)
+        else:
+            return nl
+        res.label("netlist-is-product-of-" + kind)
+    except Exception:  # noqa (C07/C08 decide the transforms)
+        res.label("pre-transform-raised")
+    return nl
+
+
 class C12(Prop):
     ID = "C12"
     RULE = ("design recipes (nets spanning several levels, nets touching only instance pins, only ports "
@@ -33,7 +55,9 @@ class C12(Prop):
                                       "proxy": st.booleans()})
         return st.fixed_dictionaries({"design": gen_ir.recipes(self.cfg(tier)),
                                       "sample": st.integers(0, 1000),
-                                      "edits": st.one_of(st.just([]), st.lists(edit, max_size=3))})
+                                      "edits": st.one_of(st.just([]), st.lists(edit, max_size=3)),
+                                      "pre": st.sampled_from(["none", "none", "none", "clone", "uniquify",
+                                                              "clone+uniquify"])})
 
     def fixed_cases(self, tier):
         return gen_ir.example_cases(tier, quick_limit=4000, thorough_limit=9000)
@@ -54,6 +78,8 @@ class C12(Prop):
             pre = model.wf(nl, strict=True)
             if pre:
                 raise RuntimeError("generator produced ill-formed netlist: %r" % pre[:3])
+            if nl.top_instance is not None and nl.top_instance.reference is not None:
+                nl = pre_transform(nl, case.get("pre", "none"), res)
         # connections made and cut through the public API (registered pins or (instance, inner pin)
         # proxies) before tracing: the property speaks of all netlists, not only freshly built ones
         for e in case.get("edits") or []:
